@@ -168,6 +168,13 @@ def main():
         for tail in (['RCPT', 'DATA'], ['MAIL', 'RCPT', 'DATA', 'QUIT'], ['RSET', 'RCPT'], ['EHLO', 'RCPT']):
             verdicts = {'mail': [vs[0], 0], 'rcpt': [vs[1], 0, 0], 'data': [vs[2], 0], 'have_data': [vs[3], 0]}
             emit('verdict', skeleton[:5] + tail, verdicts)
+    # recipients accepted and refused in every order: one accepted recipient is enough for DATA, wherever it comes
+    for nr in (2, 3):
+        for vs in itertools.product([0, 450, 550], repeat=nr):
+            idx += 1
+            if idx % nshards != shard:
+                continue
+            emit('verdict', ['EHLO', 'MAIL'] + ['RCPT'] * nr + ['DATA', 'MAIL', 'RCPT', 'DATA', 'QUIT'], {'rcpt': list(vs) + [0]})
     for vs in itertools.product([0, 450, 550, 421], repeat=2):
         idx += 1
         if idx % nshards != shard:
